@@ -241,6 +241,8 @@ def _run_multi(mod, ents, table, val, trajs, kreq, tmo, call, by_value,
     n     = max(len(tr) for tr in trajs)
     clock = Clock(n + 4 + 3, on_sleep)
     mod.time = clock
+    # a manager may delegate to the entities' own wait(): same virtual clock
+    m_task.time = m_pilot.time = clock
     if all_sat():
         sat_at[0] = 0
     timeout = None if tmo == 0 else tmo
@@ -267,7 +269,7 @@ def _check_multi(ret_states, ents, clock, sat, timeout):
         check(clock.polls <= sat + 2, 'returned at poll %d, condition held '
               'since poll %d' % (clock.polls, sat))
     elif timeout is not None:
-        check(clock.polls <= timeout + 2, 'returned at poll %d, timeout %d'
+        check(clock.polls <= timeout + 1, 'returned at poll %d, timeout %d'
               % (clock.polls, timeout))
     if sat is None:
         check(timeout is not None and clock.polls >= timeout,
